@@ -68,6 +68,7 @@ class FuncInfo:
         else:
             self.qual = module.name + "." + node.name
         self.params = [a.arg for a in node.args.args]
+        self.is_static = any(isinstance(d, ast.Name) and d.id == "staticmethod" for d in node.decorator_list)
         self.defaults = {}
         d = node.args.defaults
         if d:
@@ -246,6 +247,77 @@ class Program:
             for c in m.classes.values():
                 for f in c.methods.values():
                     self.funcs[f.qual] = f
+
+    # ---- roles of attribute names, discovered from what is stored into them -------------
+    def field_roles(self):
+        """{'alarm': names of attributes that receive a callLater() handle, 'loop': ... a LoopingCall,
+        'mutable': attribute names assigned outside constructors}.  Attribute names, program-wide."""
+        got = getattr(self, "_field_roles", None)
+        if got is not None:
+            return got
+        alarm, loop, mutable, interval = set(), set(), set(), set()
+
+        def kind_of(v, local_kinds):
+            if isinstance(v, ast.Call):
+                f = v.func
+                nm = f.attr if isinstance(f, ast.Attribute) else (f.id if isinstance(f, ast.Name) else "")
+                if nm == "callLater":
+                    return "alarm"
+                if nm == "LoopingCall":
+                    return "loop"
+            if isinstance(v, ast.Name):
+                return local_kinds.get(v.id)
+            return None
+        for f in self.funcs.values():
+            # the retry-interval object: the attribute that is called to compute the delay of a callLater()
+            local_attr = {}
+            for n in ast.walk(f.node):
+                if isinstance(n, ast.Assign) and isinstance(n.value, ast.Attribute) and len(n.targets) == 1 and isinstance(n.targets[0], ast.Name):
+                    local_attr[n.targets[0].id] = n.value.attr
+            delay_roots = []
+            for n in ast.walk(f.node):
+                if isinstance(n, ast.Call) and (isinstance(n.func, ast.Attribute) and n.func.attr == "callLater"
+                                                or isinstance(n.func, ast.Name) and n.func.id == "callLater") and n.args:
+                    delay_roots.append(n.args[0])
+                    if isinstance(n.args[0], ast.Name):
+                        # delay computed into a local first
+                        for m in ast.walk(f.node):
+                            if isinstance(m, (ast.Assign, ast.AugAssign)) and any(
+                                    isinstance(t, ast.Name) and t.id == n.args[0].id for t in (m.targets if isinstance(m, ast.Assign) else [m.target])):
+                                delay_roots.append(m.value)
+            for root in delay_roots:
+                for c in ast.walk(root):
+                    if isinstance(c, ast.Call):
+                        if isinstance(c.func, ast.Attribute) and not isinstance(c.func.value, ast.Name) or \
+                                (isinstance(c.func, ast.Attribute) and isinstance(c.func.value, ast.Name) and c.func.value.id not in ("self", "random", "math")):
+                            interval.add(c.func.attr)
+                        elif isinstance(c.func, ast.Name) and c.func.id in local_attr:
+                            interval.add(local_attr[c.func.id])
+            local_kinds = {}
+            for n in ast.walk(f.node):
+                if isinstance(n, ast.Assign):
+                    k = kind_of(n.value, local_kinds)
+                    for t in n.targets:
+                        if isinstance(t, ast.Name) and k:
+                            local_kinds[t.id] = k
+            for n in ast.walk(f.node):
+                tgts = []
+                if isinstance(n, ast.Assign):
+                    tgts = [(t, n.value) for t in n.targets]
+                elif isinstance(n, (ast.AugAssign, ast.AnnAssign)):
+                    tgts = [(n.target, n.value)]
+                for t, v in tgts:
+                    for tt in (t.elts if isinstance(t, (ast.Tuple, ast.List)) else [t]):
+                        if isinstance(tt, ast.Attribute):
+                            if f.name != "__init__":
+                                mutable.add(tt.attr)
+                            k = kind_of(v, local_kinds) if v is not None else None
+                            if k == "alarm":
+                                alarm.add(tt.attr)
+                            elif k == "loop":
+                                loop.add(tt.attr)
+        self._field_roles = {"alarm": alarm, "loop": loop, "mutable": mutable, "interval": interval}
+        return self._field_roles
 
     # ---- name resolution -------------------------------------------------
     def resolve(self, module, name, _depth=0):
@@ -515,5 +587,7 @@ def closed_world_audit(prog):
                         offending.append((m.path, node.lineno, "@" + txt))
             elif isinstance(node, ast.FunctionDef) and node.decorator_list:
                 for d in node.decorator_list:
+                    if isinstance(d, ast.Name) and d.id == "staticmethod":
+                        continue      # modelled: called without binding a receiver
                     offending.append((m.path, node.lineno, "@" + ast.unparse(d)))
     return modelled, offending
